@@ -261,6 +261,12 @@ class H1Server(TimerMixin, Peer):
                 self.w.log("srv_idle_close", self.wire.id, t)
                 self.w.probes["server_closed_idle"] += 1
                 self.w.stats["hostile:idle_close"] += 1
+                if self.cfg.get("idle_408"):
+                    # some servers announce the idle time-out with an unsolicited 408
+                    # before they close; it answers nobody's request
+                    self.wire.push(t, b"HTTP/1.1 408 Request Timeout\r\nConnection: close\r\n"
+                                      b"Content-Length: 0\r\n\r\n")
+                    self.w.probes["server_idle_408"] += 1
                 self._close(t)
 
         self.at(now + ka, fire)
